@@ -116,7 +116,7 @@ func (ex *Exec) evalCallOperands(st *State, x *ast.CallExpr, k func(*State, *cal
 				switch {
 				case wantPtr && !havePtr:
 					// auto-address
-					ex.addrOf(st, &ast.UnaryExpr{Op: token.AND, X: f.X, OpPos: f.Pos()}, func(st *State, r Val) {
+					ex.addrOfExpr(st, f.X, types.NewPointer(recvT), func(st *State, r Val) {
 						r.Go = types.NewPointer(recvT)
 						ct.recv = &r
 						evalArgs(st)
@@ -474,8 +474,7 @@ func (ex *Exec) inline(st *State, ct *callTarget, k func(*State, []Val)) {
 func (ex *Exec) funcLit(st *State, x *ast.FuncLit) Val {
 	fr := st.frame
 	ty := ex.typeOf(fr, x)
-	n := ex.w.freshConst("closure", sRef)
-	st.assume(sNot(sEq(n, "nil")))
+	n := ex.newRef(st, "closure")
 	ex.closures[n] = &closureInfo{lit: x, frame: fr, info: fr.info, fi: fr.fi}
 	// a pure closure (single return of a side-effect free expression) gets its defining axiom so
 	// that contracts can speak about it as a mathematical function
@@ -645,6 +644,7 @@ func (ex *Exec) pureClosureAxiom(st *State, c string, x *ast.FuncLit, ty types.T
 	nObl := len(ex.obls)
 	nAss := len(scratch.assumes)
 	var body *Val
+	var guards []string
 	count := 0
 	func() {
 		defer func() {
@@ -659,9 +659,8 @@ func (ex *Exec) pureClosureAxiom(st *State, c string, x *ast.FuncLit, ty types.T
 		}()
 		ex.expr(scratch, ret.Results[0], func(s2 *State, v Val) {
 			count++
-			if len(s2.assumes) == nAss {
-				body = &v
-			}
+			body = &v
+			guards = append([]string{}, s2.assumes[nAss:]...)
 		})
 	}()
 	// obligations produced while evaluating under quantified variables are not meaningful
@@ -670,7 +669,7 @@ func (ex *Exec) pureClosureAxiom(st *State, c string, x *ast.FuncLit, ty types.T
 		return
 	}
 	app := ex.applyPure(Val{T: c, S: sRef, Go: ty}, sig, args)
-	st.assume(fmt.Sprintf("(forall (%s) (! (= %s %s) :pattern (%s)))", strings.Join(decl, " "), app[0].T, body.T, app[0].T))
+	st.assume(fmt.Sprintf("(forall (%s) (! (=> %s (= %s %s)) :pattern (%s)))", strings.Join(decl, " "), sAnd(guards...), app[0].T, body.T, app[0].T))
 }
 
 // ---------- contract application at a call site ----------
